@@ -22,6 +22,10 @@ def run(chk, tier):
             spec_checked.check_shapes(chk, lib)
         if name in ("test_schema", "vlayout"):
             spec_checked.check_block_length_state(chk, lib)
+    # the traversal is cursor based: what it reads after a group depends on every entry handing the cursor over to its
+    # successor and on members being chained in schema order (generated code: E4.cursor)
+    import e4
+    e4.check(chk, ("cursor",), tier)
     chk.extra["entry_points_analysed"] = tot[0]
     chk.floor("size_bytes_checked instantiations", tot[0], 20)
     chk.floor("reads examined", tot[1], 300)
